@@ -102,4 +102,13 @@ void op_fdworld (char **tok, int ntok) ;
 
 /* failopen.c (C09 / C16: one open attempt + "did it change the caller's file") */
 void op_failopen (char **tok, int ntok) ;
+
+/* _exit skips the atexit handlers: a coverage build (tools/coverage.sh) dumps its counters first */
+#ifdef SFH_COVERAGE
+extern void __gcov_dump (void) ;
+#define SFH_EXIT(c) do { __gcov_dump () ; _exit (c) ; } while (0)
+#else
+#define SFH_EXIT(c) _exit (c)
+#endif
+
 #endif
